@@ -12,7 +12,7 @@ from vf.ref import tables as T
 from vf.ref import validate as V
 from vf.ref import ota as O
 
-NODE_POOL = [1, 2, 3, 0, 254, 255, 77]
+NODE_POOL = [1, 2, 3, 0, 254, 255, 77, 253]
 CHILD_POOL = [0, 1, 2, 254, 9]
 
 _free_chars = st.characters(exclude_categories=["Cs"], exclude_characters=";\n\r")
@@ -322,6 +322,8 @@ def fw_update(draw, pic, max_len=200):
         st.lists(st.sampled_from(known + [99]) if known else st.sampled_from(NODE_POOL), min_size=1, max_size=3, unique=True),
     ))
     ftype, fver = draw(st.integers(0, 2)), draw(st.integers(0, 2))
+    if pic.fw and draw(st.integers(0, 9)) < 5:
+        ftype, fver = draw(st.sampled_from(pic.fw))  # re-issue an update for firmware already stored
     image = None
     if draw(st.integers(0, 9)) < 7 or not pic.fw:
         length = draw(st.one_of(st.sampled_from([1, 15, 16, 17, 127, 128, 129]), st.integers(1, max_len)))
